@@ -38,7 +38,7 @@ inductive Res (α : Type) where
   | precondition
   | oob
   | fuel
-  deriving Repr
+  deriving Repr, DecidableEq
 
 namespace Res
 variable {α β : Type}
